@@ -29,7 +29,7 @@ def run_patch(patch_path, prop, tier="quick", keep=False, expect=None):
         tag = "-" + hashlib.sha256(repo.encode()).hexdigest()[:8]
         import glob
         for d in glob.glob(os.path.join(BUILD, "*" + tag)) + glob.glob(os.path.join(BUILD, "*" + tag + "-*")):
-            shutil.rmtree(d, ignore_errors=True)
+            (os.remove(d) if os.path.isfile(d) else shutil.rmtree(d, ignore_errors=True))
         if not keep: shutil.rmtree(tmp, ignore_errors=True)
 
 
